@@ -418,6 +418,13 @@ DIRECTED = [
     ('isar: struct named _discriminator used as a union arm (D177)', '--isar',
      {'a.xml': ISAR % ('<struct name="_discriminator"><member name="a" type="u64"/><member name="b" type="u64"/></struct>'
                        '<union name="U"><member name="x" type="_discriminator" discriminatorValue="1"/></union>')}, 'a.xml', 'reject'),
+    ('enum named like a C++ runtime name', None, {'a.prophy': 'enum size_t { size_t_First = 1 };\nstruct S { u8 k; size_t x; };\n'}, 'a.prophy', 'reject'),
+    ('enum named native', None, {'a.prophy': 'enum native { native_A = 1 };\nstruct S { native x; };\n'}, 'a.prophy', 'reject'),
+    ('enum named uint8_t', None, {'a.prophy': 'enum uint8_t { U_A = 1 };\nstruct S { uint8_t x; u8 y; };\n'}, 'a.prophy', 'reject'),
+    ('typedef named std', None, {'a.prophy': 'typedef u16 std;\nstruct S { std x; };\n'}, 'a.prophy', 'reject'),
+    ('union named encoded_byte_size', None, {'a.prophy': 'union encoded_byte_size { 1: u8 a; };\nstruct S { encoded_byte_size x; };\n'}, 'a.prophy', 'reject'),
+    ('struct named big', None, {'a.prophy': 'struct big { u8 a; };\nstruct S { big x; };\n'}, 'a.prophy', 'reject'),
+    ('enumerator named little', None, {'a.prophy': 'enum E { little = 1, other = 2 };\nstruct S { E x; };\n'}, 'a.prophy', 'reject'),
     ('fields named like runtime names nothing captures (D187)', None,
      {'a.prophy': 'struct Style { u32 indent; u32 width; u8 big; u16 little; u8 native; };\nunion V { 1: u8 big; 2: u16 little; };\n'}, 'a.prophy', 'usable'),
     ('constants and enumerators named like blocks of the raw header (D187)', None,
